@@ -116,6 +116,11 @@ REQUIRED_COUNTERS = (['w:' + w for w in WRAPPERS] + ['leaf:' + l for l in LEAVES
                         'sem:preapp:value', 'sem:remapp:value', 'sem:remapp:2plus_constituencies',
                         'sem:byparty:value', 'sem:byparty:2plus_parties_2plus_constituencies',
                         'sem:byparty:overall_reused_as_allocator', 'sem:byparty:gains_columns',
+                        # seat caps and previous gains of the SAME constituency and party, the cap binding (seeded C14o)
+                        'byparty_caps:direct', 'byparty_caps:later_stage', 'byparty_caps:later_stage_remapp',
+                        'sem:byparty:cap_and_prev_gains_same_cell', 'sem:byparty:cap_binds_on_cell_with_prev_gains',
+                        'sem:byparty:cap_total_vs_remaining_differs',
+                        'sem:byparty:later_stage_cap_total_vs_remaining_differs',
                         'sem:multi:2plus_stages_award', 'sem:multi:3plus_stages', 'sem:multi:a_stage_awards_nothing',
                         'sem:multi:depth2_value', 'sem:multi:prev_gains_value', 'sem:multi:max_seats_value',
                         'sem:multi:votes_per_stage', 'sem:unused:default_quota_functions',
@@ -408,9 +413,11 @@ LEAF_TAKES = {'plurality': ('n',), 'input_order': ('n',), 'ha': ('n', 'prev', 'm
 
 
 class Hand:
-    def __init__(self):
+    def __init__(self, probe=False):
         self.trace = []      # (B, votes, kw, ('ok', result) | ('err', name)) in completion order
         self.notes = set()   # what the wrappers' own logic had to do on this input (generator statistics)
+        self.probe = probe   # generator statistics only: re-run a part on perturbed arguments (never in the oracle)
+        self.later = False   # inside a later stage of a multi-stage distributor after an earlier stage awarded seats
 
     def note(self, tag):
         self.notes.add(tag)
@@ -636,7 +643,10 @@ class Hand:
             pvotes = {con: cv.get(party, 0) for con, cv in votes.items()}
             pprev = {con: g[party] for con, g in prev.items() if party in g}
             pmax = {con: g[party] for con, g in mx.items() if party in g}
-            for con, s in self.run(alloc, pvotes, {'n': seats, 'prev': pprev, 'max': pmax}).items():
+            allocated = self.run(alloc, pvotes, {'n': seats, 'prev': pprev, 'max': pmax})
+            if self.probe:
+                self._probe_caps(alloc, pvotes, seats, pprev, pmax, allocated)
+            for con, s in allocated.items():
                 out.setdefault(con, {})[party] = s
         self.note('sem:byparty:value')
         if len(overall) >= 2 and len(votes) >= 2:
@@ -647,6 +657,36 @@ class Hand:
             self.note('sem:byparty:gains_columns')
         return out
 
+    def _probe_caps(self, alloc, pvotes, seats, pprev, pmax, allocated):
+        """generator statistics: does this allocation depend on the party's seat caps being TOTALS that include its
+        previous gains (seeded change C14o handed on caps reduced by the previous gains)?  The allocator (a part) is
+        run again by hand with the caps of the cells that also hold previous gains (a) removed, (b) reduced by
+        those gains."""
+        try:
+            cells = [con for con in pmax if con in pvotes and pprev.get(con, 0) > 0]
+        except TypeError:
+            return
+        if not cells:
+            return
+        self.note('sem:byparty:cap_and_prev_gains_same_cell')
+
+        def alt(mx):
+            try:
+                return 'ok', Hand().run(alloc, clone(pvotes), {'n': seats, 'prev': clone(pprev), 'max': mx})
+            except Exception as e:      # noqa
+                return 'err', err_name(e)
+        try:
+            free = alt({c: v for c, v in pmax.items() if c not in cells})
+            rel = alt({c: v - pprev[c] if c in cells else v for c, v in pmax.items()})
+        except TypeError:
+            return
+        if free != ('ok', allocated):
+            self.note('sem:byparty:cap_binds_on_cell_with_prev_gains')
+        if rel != ('ok', allocated):
+            self.note('sem:byparty:cap_total_vs_remaining_differs')
+            if self.later:
+                self.note('sem:byparty:later_stage_cap_total_vs_remaining_differs')
+
     # multi-stage distribution equals chaining the stages with accumulated previous gains
     def _multistage(self, b, votes, kw):
         depth = b.node['depth']
@@ -655,7 +695,12 @@ class Hand:
         per_stage = [votes] * len(rounds) if isinstance(votes, dict) else list(votes)
         awarded = []
         for st, sv in zip(rounds, per_stage):
-            r = self.run(st, sv, {'n': kw.get('n'), 'prev': clone(acc), 'max': kw.get('max', {})})
+            was = self.later
+            self.later = was or any(x > 0 for x in awarded)
+            try:
+                r = self.run(st, sv, {'n': kw.get('n'), 'prev': clone(acc), 'max': kw.get('max', {})})
+            finally:
+                self.later = was
             awarded.append(_flat_total(r, depth))
             acc = _nested_add(acc, r, depth)
         if len(rounds) >= 2 and sum(1 for x in awarded if x > 0) >= 2:
@@ -1881,6 +1926,68 @@ def gen_by_party(rng):
     return mk_case(tree, args, tags)
 
 
+BYPARTY_CAP_SHAPES = ['direct', 'later_stage', 'direct', 'later_stage', 'later_stage_remapp']
+
+
+def gen_by_party_caps(rng, shape):
+    """ByParty whose allocator takes max_seats, given BOTH previous gains and seat caps for the same constituency and
+    party, the caps tight enough to bind: directly (prev_gains an argument), and as a later stage of a
+    MultistageDistributor(depth=2) where the previous gains are what the constituency stage awarded (seeded change
+    C14o: caps handed on reduced by the previous gains).  Drawn again until the hand composition says that the
+    allocation depends on the caps being totals (`sem:byparty:cap_total_vs_remaining_differs`)."""
+    case = None
+    for _ in range(40):
+        parties = rng.sample(range(CANDS), rng.randint(2, 4))
+        cons = [CON0 + i for i in range(rng.randint(2, 3))]
+        votes = {'dict': [[c, g_big_votes(rng, parties)] for c in cons]}
+        overall = rng.choice([leaf('ha', divisor=rng.choice(DIVS)), g_quota_leaf(rng, 'lr', True),
+                              {'k': 'tb', 'main': leaf('ha', divisor='d_hondt'), 'tb': leaf('input_order')}])
+        alloc = None if rng.random() < 0.3 else rng.choice([
+            leaf('ha', divisor=rng.choice(DIVS)), g_quota_leaf(rng, 'lr', True),
+            {'k': 'vs', 'e': leaf('ha', divisor=rng.choice(DIVS))},
+            {'k': 'tb', 'main': leaf('ha', divisor=rng.choice(DIVS)), 'tb': leaf('input_order')}])
+        tree = {'k': 'byparty', 'overall': overall, 'alloc': alloc}
+        tags = ['byparty_caps:' + shape]
+        if shape == 'direct':
+            n = rng.randint(4, 12)
+            prev = {c: {p: rng.randint(1, 2) for p in parties if rng.random() < 0.6} for c in cons}
+            caps = {c: {p: prev[c][p] + rng.randint(0, 1) if p in prev[c] and rng.random() < 0.75 else rng.randint(0, 3)
+                        for p in parties if p in prev[c] or rng.random() < 0.3} for c in cons}
+            args = {'votes': votes, 'n': str(n),
+                    'prev': {'dict': [[c, {'dict': [[p, str(g)] for p, g in prev[c].items()]}] for c in cons if prev[c]]},
+                    'max': {'dict': [[c, {'dict': [[p, str(g)] for p, g in caps[c].items()]}] for c in cons if caps[c]]}}
+            tags.append('seatspec:int')
+            if rng.random() < 0.25:
+                tree = {'k': 'vs', 'e': tree}
+        else:
+            # the constituency stage awards 1-3 seats per constituency; the caps (totals over both stages) are near them
+            table = {'dict': [[c, str(rng.randint(1, 3))] for c in cons]}
+            first = {'k': 'bycon', 'e': leaf('ha', divisor=rng.choice(DIVS)), 'app': None}
+            caps = {c: {p: rng.randint(1, 3) for p in parties if rng.random() < 0.6} for c in cons}
+            args = {'votes': votes,
+                    'max': {'dict': [[c, {'dict': [[p, str(g)] for p, g in caps[c].items()]}] for c in cons if caps[c]]}}
+            if shape == 'later_stage':
+                # every stage gets the total; the constituency stage has its own table of seats
+                tree = {'k': 'multi', 'rounds': [{'k': 'preapp', 'e': first, 'app': table}, tree], 'depth': 2}
+                args['n'] = str(rng.randint(5, 12))
+                tags.append('seatspec:int')
+                if rng.random() < 0.3:
+                    args['prev'] = {'dict': [[c, g_gains(rng, parties, 2)] for c in cons if rng.random() < 0.5]}
+            else:
+                # every stage gets the table; the party stage sums it up again
+                tree = {'k': 'multi', 'rounds': [first, {'k': 'remapp', 'e': tree}], 'depth': 2}
+                args['n'] = {'dict': [[c, str(rng.randint(2, 5))] for c in cons]}
+                tags.append('seatspec:dict')
+            if rng.random() < 0.25:
+                tree = {'k': 'vs', 'e': tree}
+        case = _tag_semantics(mk_case(tree, args, tags))
+        want = ('sem:byparty:cap_total_vs_remaining_differs' if shape == 'direct'
+                else 'sem:byparty:later_stage_cap_total_vs_remaining_differs')
+        if want in case['_tags']:
+            break
+    return case
+
+
 def g_votes_levels(rng, levels, parties, prefix=CON0):
     """votes nested by `levels` constituency levels (region -> district -> ... -> party)"""
     if levels == 0:
@@ -2144,7 +2251,7 @@ def _tag_semantics(case):
     try:
         root = build(case['tree'])
         votes, kw = _args(case)
-        h = Hand()
+        h = Hand(probe=True)
         try:
             call_with_timeout(lambda: h.run(root, votes, kw), 5)
             ok = True
@@ -2172,6 +2279,8 @@ def _generate(rng, tier):
         yield gen_ties(rng)
     for _ in range(50 if tier == 'quick' else 1200):
         yield gen_votes_per_stage(rng)
+    for i in range(60 if tier == 'quick' else 1500):
+        yield gen_by_party_caps(rng, BYPARTY_CAP_SHAPES[i % len(BYPARTY_CAP_SHAPES)])
     for _ in range(200 if tier == 'quick' else 4000):
         yield gen_deep(rng)
     for i in range(N):
@@ -2290,7 +2399,9 @@ ASSUMPTIONS = [
 RULE = ('wrapper trees of 0-4 wrapper levels over Plurality / InputOrderSelector / HighestAverages(5 divisors) / QuotaDistributor / LargestRemainder / Absolute-, Relative-, '
         'PreviousGain-threshold; 2-5 parties, 1-4 constituencies, votes from tie-forcing small sets (x1, x5, x100, some Fractions), '
         'seats 1-6 given as int, per-constituency dict, fixed int/dict apportioner, distributor apportioner (with total or seatless), '
-        'prev_gains / max_seats of matching nesting; directed cases for every named mechanism; thorough adds every '
+        'prev_gains / max_seats of matching nesting; ByParty with previous gains and binding seat caps on the same '
+        'constituency and party, directly and as a later stage of a depth-2 MultistageDistributor (drawn until the hand '
+        'composition depends on the caps being totals); directed cases for every named mechanism; thorough adds every '
         'wrapper-over-wrapper-over-leaf tree of a small alphabet on a fixed family of inputs.  Non-trivial = at least one '
         'wrapper level and a result that is not an error; distinct by canonical request.')
 TECHNIQUE = ('Lean 4 deep embedding of the wrapper algebra (interpreter with signature dispatch vs. dispatch-free laws, equality proved '
